@@ -1437,6 +1437,70 @@ theorem DbInv.resolve_id {d : Db} (h : DbInv d) (o : List Nat) (i : Nat) (hl : a
     · exact hm
     · exact absurd hm (hno a.1 ((alHas_iff _ _).mpr (List.mem_map_of_mem ha)))
 
+/-! ### `RetentionManager::enforce` on a listing without duplicate ids -/
+
+theorem eq_of_nodup_keys (l : List (Nat × Nat)) (h : (l.map (·.1)).Nodup) (p q : Nat × Nat)
+    (hp : p ∈ l) (hq : q ∈ l) (e : p.1 = q.1) : p = q := by
+  induction l with
+  | nil => cases hp
+  | cons x xs ih =>
+    simp only [List.map_cons, List.nodup_cons] at h
+    rcases List.mem_cons.mp hp with hp | hp <;> rcases List.mem_cons.mp hq with hq | hq
+    · rw [hp, hq]
+    · have hm : q.1 ∈ xs.map (·.1) := List.mem_map_of_mem hq
+      rw [← e, hp] at hm
+      exact absurd hm h.1
+    · have hm : p.1 ∈ xs.map (·.1) := List.mem_map_of_mem hp
+      rw [e, hq] at hm
+      exact absurd hm h.1
+    · exact ih h.2 hp hq
+
+/-- what `enforce` keeps: exactly the first `max` entries of the newest-first listing (as a set),
+    `min max |L|` of them, and nothing dropped is newer than anything kept -/
+theorem enforce_spec (max : Nat) (ord : List Nat) (L : List (Nat × Nat)) (hn : (L.map (·.1)).Nodup) :
+    (enforce max ord L).length = min max L.length ∧
+    (∀ p, p ∈ enforce max ord L ↔ p ∈ (ckList ord L).take max) ∧
+    ∀ q ∈ L, q ∉ enforce max ord L → ∀ k ∈ enforce max ord L, q.2 ≤ k.2 := by
+  have hperm := ckList_perm ord L hn
+  have hLn : L.Nodup := nodup_of_map _ _ hn
+  have hcn : (ckList ord L).Nodup := hperm.nodup_iff.mpr hLn
+  have hmem : ∀ p, p ∈ enforce max ord L ↔ p ∈ (ckList ord L).take max := by
+    intro p
+    unfold enforce
+    split
+    · rename_i hle
+      rw [List.take_of_length_le (by rw [hperm.length_eq]; exact hle)]
+      exact (hperm.mem_iff).symm
+    · constructor
+      · intro hp
+        obtain ⟨hpL, hk⟩ := List.mem_filter.mp hp
+        simp only [retainIds, List.contains_eq_mem, decide_eq_true_eq] at hk
+        obtain ⟨q, hq, hqp⟩ := List.mem_map.mp hk
+        have hqL : q ∈ L := ckList_mem ord L q (List.mem_of_mem_take hq)
+        rw [← eq_of_nodup_keys L hn q p hqL hpL hqp]
+        exact hq
+      · intro hp
+        refine List.mem_filter.mpr ⟨ckList_mem ord L p (List.mem_of_mem_take hp), ?_⟩
+        simp only [retainIds, List.contains_eq_mem, decide_eq_true_eq]
+        exact List.mem_map_of_mem hp
+  have hen : (enforce max ord L).Nodup := List.Nodup.sublist (enforce_sublist max ord L) hLn
+  have htn : ((ckList ord L).take max).Nodup := List.Nodup.sublist (List.take_sublist _ _) hcn
+  have hp2 : (enforce max ord L).Perm ((ckList ord L).take max) :=
+    (List.perm_ext_iff_of_nodup hen htn).mpr hmem
+  refine ⟨?_, hmem, ?_⟩
+  · rw [hp2.length_eq, List.length_take, hperm.length_eq]
+  · intro q hq hnot k hk
+    have hk' := (hmem k).mp hk
+    have hq' : q ∈ ckList ord L := hperm.mem_iff.mpr hq
+    rw [← List.take_append_drop max (ckList ord L)] at hq'
+    rcases List.mem_append.mp hq' with hq' | hq'
+    · exact absurd ((hmem q).mpr hq') hnot
+    · have hs := sortDesc_sorted (arrange ord L)
+      unfold DescSorted at hs
+      unfold ckList at hq' hk'
+      rw [← List.take_append_drop max (sortDesc (arrange ord L)), List.pairwise_append] at hs
+      exact hs.2.2 k hk' q hq'
+
 /-! ### the full property statement (its negation is proved in `Props.lean`) -/
 
 /-- The full statement: for every statement sequence `pre` before the checkpoint (which may itself
